@@ -275,6 +275,10 @@ Definition ssort (l : list centroid) : list centroid := msort (length l) l.
 
 Definition msum (g : list centroid) : Q := fold_right (fun c a => c_mean c * c_w c + a) 0 g.
 Definition group_mean (g : list centroid) : Q := msum g / inject_Z (sumw g).
+(* the same sum kept in lowest terms (the checker's version: without it the denominators of a group of
+   thousands of binary64 values multiply up); == msum (Proofs/TDigestProofsMerge.v: msum_red_eq) *)
+Definition msum_red (g : list centroid) : Q := fold_right (fun c a => Qred (c_mean c * c_w c + a)) 0 g.
+Definition group_mean_red (g : list centroid) : Q := msum_red g / inject_Z (sumw g).
 
 Definition Qmaxq (a b : Q) : Q := if Qltb a b then b else a.
 (* tolerance scale of a group: max(1, |mean_i|) over its members *)
@@ -335,12 +339,12 @@ Definition valid_merge (eps : Q) (rev_pass : bool) (input output : list centroid
     match group_by_out s out with
     | Some gs =>
         first_last_single gs &&
-        forallb (fun p => close eps (gscale (snd p)) (c_mean (fst p)) (group_mean (snd p))) (combine out gs)
+        forallb (fun p => close eps (gscale (snd p)) (c_mean (fst p)) (group_mean_red (snd p))) (combine out gs)
     | None => false
     end
   end.
 
-(* the relation itself (Prop): see Proofs/TDigestMerge.v for what follows from it *)
+(* the relation itself (Prop): see Proofs/TDigestProofsMerge.v for what follows from it *)
 Definition merge_rel (eps : Q) (rev_pass : bool) (input output : list centroid) : Prop :=
   input <> [] /\
   exists gs : list (list centroid),
